@@ -136,6 +136,14 @@ func (e *Engine) doCall(st *State, fr *Frame, dst *ssa.Call, cc *ssa.CallCommon,
 	if strings.HasPrefix(fn.Name(), "verif") && !strings.HasPrefix(fn.Name(), "verifStub_") {
 		r, handled := e.harnessCall(st, fn, args)
 		if handled {
+			if sf, isSplit := r.(splitFork); isSplit && !st.dead {
+				base := st.split
+				return e.applyFork(st, sf.ForkVal, func(t *State, v Value) {
+					t.split = base + "/" + sf.Key + "=" + describe(v)
+					t.sig = ""
+					setResult(t, v)
+				})
+			}
 			if !st.dead {
 				setResult(st, r)
 			}
@@ -374,6 +382,12 @@ func (e *Engine) findCut(fn *ssa.Function) *ssa.Function {
 // symbolic-bytes string): the call falls through to the normal treatment (SSA execution of an executable package).
 type DeclineVal struct{}
 
+// splitFork is a ForkVal whose alternatives must stay separate states (verifConcretize).
+type splitFork struct {
+	ForkVal
+	Key string
+}
+
 // ForkVal lets an intrinsic return several guarded alternatives.
 type ForkVal struct {
 	Conds []*Term
@@ -582,7 +596,7 @@ func (e *Engine) mergeStates(outs []*State, basePC, mark int, dst *ssa.Call) (*S
 			return nil, false
 		}
 		f := o.top()
-		if len(o.frames) != len(outs[0].frames) || f.block != f0.block || f.ip != f0.ip || f.prev != f0.prev || o.goCount != outs[0].goCount {
+		if len(o.frames) != len(outs[0].frames) || f.block != f0.block || f.ip != f0.ip || f.prev != f0.prev || o.goCount != outs[0].goCount || o.split != outs[0].split {
 			return nil, false
 		}
 	}
